@@ -505,4 +505,5 @@ pub fn run(ctx: &mut Ctx) {
     }
     crate::spaces::depth_probes(ctx);
     crate::spaces::nested_iteration_probes(ctx);
+    crate::spaces::sweep::length_sweep(ctx);
 }
